@@ -132,9 +132,19 @@ def run(tape, scenario):
             pause = tape.draw("c15/pause", 4)
             if pause:
                 await asyncio.sleep([0, 0, 40e-6, 300e-6][pause])
-            kind = tape.draw("c15/op-kind", 10)
+            kind = tape.draw("c15/op-kind", 11)
             tno = user_term[u]
-            if kind < 3:
+            if kind == 10:
+                # an exchange that ends with an exception inside the lock: the terminal
+                # aborts the upload of an object it does not have; the counter of the
+                # message sent still counts
+                from ebpfcat.ethercat import EtherCatError
+                try:
+                    await t.sdo_read(0x2f00 + u, 1)
+                    viol("wrong-answer", f"user {u}: upload of a missing object succeeded")
+                except EtherCatError:
+                    world.count("c15/aborted-exchange")
+            elif kind < 3:
                 await t.sdo_write(struct.pack("<I", 0x5000 + 16 * u + k), 0x2000 + u, 1)
             elif kind < 6:
                 got = await t.sdo_read(0x2000 + u, 1)
